@@ -4,7 +4,7 @@ Require Import WD.Base.Prelude WD.Base.BStr WD.Model.SubEvents WD.Model.Emitter 
                WD.Model.DelayQueue WD.Model.Grouping WD.Model.Pipeline WD.Model.Contract.
 Require Import WD.Proofs.ContractProofs WD.Proofs.TieProofs WD.Proofs.TieStrongProofs WD.Proofs.CoverProofs
                WD.Proofs.CoverOutProofs WD.Proofs.ReplayProofs WD.Proofs.ReplayOutProofs WD.Proofs.ReplayPipeProofs
-               WD.Proofs.CutsProofs WD.Proofs.CutsReaderProofs.
+               WD.Proofs.CutsProofs WD.Proofs.CutsReaderProofs WD.Proofs.CutsShapeProofs.
 Local Open Scope N_scope.
 
 Lemma GS_KQ C w k r hot : GS C w k r hot -> KQ k.
@@ -154,3 +154,70 @@ Proof.
   split; [reflexivity|]. split; [reflexivity|]. split; [reflexivity|]. split; [vm_compute; tauto|]. split; [reflexivity|].
   apply coverb_spec. vm_compute. reflexivity.
 Qed.
+
+(* ---------------------------------------------------------------- the pairing condition holds for every cut *)
+Lemma cut_paired_gs C w k r hot o w' cuts : c_faults C = [] -> c_fix_moveout C = true -> c_mask C = WATCHDOG_ALL ->
+  GS C w k r hot -> step_ok C w hot o -> apply_op w o = Some w' ->
+  sum cuts = length (k_queue (kernel_op k (w_fs w) o)) -> cut_paired C (w_fs w') r (kernel_op k (w_fs w) o) cuts.
+Proof.
+  intros Hf Hmo Hm G Hs Ha Hsum.
+  destruct (gs_step C Hf Hmo w k r hot o w' Hm G Hs Ha) as (r' & k' & raws & Hrd & _ & _).
+  assert (HK : KQ (kernel_op k (w_fs w) o)) by (apply kernel_op_KQ; exact (GS_KQ _ _ _ _ _ G)).
+  destruct (rcut_eq C Hmo (w_fs w') r _ cuts r' k' raws (proj2 HK) Hsum Hrd) as (Rs & Hrc & Econc).
+  unfold cut_paired. rewrite Hrc. apply G_cuts_ok. cbn [app]. rewrite Econc. apply W_G.
+  exact (gs_raws_W C w k r hot o w' r' k' raws Hmo G Hrd).
+Qed.
+
+(* so a cutter is good as soon as its cuts add up *)
+Definition sum_cutter (P : pcfg) (ct : pstate -> op -> list nat) : Prop :=
+  forall s o, sum (ct s o) = length (k_queue (kernel_op (p_k s) (w_fs (p_world s)) o)).
+
+Lemma good_cutter_sum P ct : c_faults (pc_reader P) = [] -> c_fix_moveout (pc_reader P) = true -> c_mask (pc_reader P) = WATCHDOG_ALL ->
+  sum_cutter P ct -> good_cutter P ct.
+Proof.
+  intros Hf Hmo Hm Hct s hot o w' S Hs Ha. split; [apply Hct|].
+  apply (cut_paired_gs _ (p_world s) (p_k s) (p_r s) hot o w'); try assumption; [exact (px_sync _ _ _ S) | apply Hct].
+Qed.
+
+Theorem block_cuts P s hot o w' cuts : let C := pc_reader P in
+  c_faults C = [] -> c_fix_moveout C = true -> c_mask C = WATCHDOG_ALL -> pc_filter P = None ->
+  PSx P s hot -> step_ok C (p_world s) hot o -> apply_op (p_world s) o = Some w' ->
+  sum cuts = length (k_queue (kernel_op (p_k s) (w_fs (p_world s)) o)) ->
+  exists nit s' obs raws, prun P s (cut_history P o cuts nit) [] = Done (s', obs) /\
+    PSx P s' (hot_next C (p_world s) hot o) /\ p_world s' = w' /\
+    p_out s' = p_out s ++ delivered C (pc_full P) w' raws /\
+    read_batch C (w_fs w') (p_r s, drainq (kernel_op (p_k s) (w_fs (p_world s)) o), [])
+               (k_queue (kernel_op (p_k s) (w_fs (p_world s)) o)) = Done (p_r s', p_k s', raws).
+Proof.
+  intros C Hf Hmo Hm HF S Hs Ha Hsum. apply block_x_cuts; try assumption.
+  apply (cut_paired_gs _ (p_world s) (p_k s) (p_r s) hot o w'); try assumption. exact (px_sync _ _ _ S).
+Qed.
+
+Theorem blocks_cover_cuts P ct : let C := pc_reader P in
+  c_faults C = [] -> c_fix_moveout C = true -> c_mask C = WATCHDOG_ALL -> pc_filter P = None -> sum_cutter P ct ->
+  forall ops s hot, PSx P s hot -> ops_x C (p_world s) hot ops ->
+  exists h s' obs hot', cut_hist P ct s ops h /\ prun P s h [] = Done (s', obs) /\ PSx P s' hot' /\
+    Cover C (w_fs (p_world s')) (p_k s') (p_r s').
+Proof. intros C Hf Hmo Hm HF Hct. apply blocks_cover_x_cuts; try assumption. now apply good_cutter_sum. Qed.
+
+Theorem blocks_replay_cuts P ct t0 : let C := pc_reader P in
+  c_faults C = [] -> c_fix_moveout C = true -> c_mask C = WATCHDOG_ALL -> pc_filter P = None -> sum_cutter P ct ->
+  forall ops s hot, PSx P s hot -> ops_x1 C (p_world s) hot ops ->
+  TInv (c_recursive C) (c_root C) (replay (c_recursive C) (c_root C) t0 (p_out s)) (p_world s) ->
+  exists h s' obs hot', cut_hist P ct s ops h /\ prun P s h [] = Done (s', obs) /\ PSx P s' hot' /\
+    TInv (c_recursive C) (c_root C) (replay (c_recursive C) (c_root C) t0 (p_out s')) (p_world s').
+Proof. intros C Hf Hmo Hm HF Hct. apply blocks_replay_x_cuts; try assumption. now apply good_cutter_sum. Qed.
+
+Theorem replay_pipeline_from_start_cuts P ct ops w s0 : let C := pc_reader P in
+  c_faults C = [] -> c_fix_moveout C = true -> c_mask C = WATCHDOG_ALL -> pc_filter P = None -> sum_cutter P ct -> wf_fs w ->
+  fisdir (c_root C) (w_fs w) = true -> pinit P w = Some s0 -> ops_x1 C w None ops ->
+  exists h s' obs hot', cut_hist P ct s0 ops h /\ prun P s0 h [] = Done (s', obs) /\ PSx P s' hot' /\
+    forall x, alookup beqb x (replay (c_recursive C) (c_root C) (tree_of (c_recursive C) (c_root C) w) (p_out s'))
+            = alookup beqb x (tree_of (c_recursive C) (c_root C) (p_world s')).
+Proof. intros C Hf Hmo Hm HF Hct. apply replay_pipeline_from_start_x_cuts; try assumption. now apply good_cutter_sum. Qed.
+
+(* a cutter that reads the first record alone and then the rest adds up: it cuts every rename between its halves when
+   the IN_MOVED_FROM is the first record *)
+Example sum_cutter_first P :
+  sum_cutter P (fun s o => let n := length (k_queue (kernel_op (p_k s) (w_fs (p_world s)) o)) in [Nat.min 1 n; (n - Nat.min 1 n)%nat]).
+Proof. intros s o. cbn [sum fold_right]. lia. Qed.
